@@ -359,6 +359,27 @@ func c16GenCase(c *Ctx, stream string, i int, malformed bool) *c16Case {
 	if r.Chance(1, 2) && c16Ties(r, j) {
 		tc.Tags = append(tc.Tags, "sort-ties")
 	}
+	if r.Chance(2, 3) {
+		// re-price commodities on later days (also on days without any other directive, and after the last one), so that
+		// value adjustments occur; sometimes with the unchanged price (no adjustment then)
+		var prices []JDir
+		lo, hi := 1<<30, 0
+		for _, d := range j.Dirs {
+			if d.Kind == 'p' {
+				prices = append(prices, d)
+			}
+			lo, hi = min(lo, d.Date), max(hi, d.Date)
+		}
+		for k := r.Range(1, 4); k > 0 && len(prices) > 0; k-- {
+			pd := Pick(r, prices)
+			pd.Date = lo + r.Intn(hi-lo+3)
+			if !r.Chance(1, 5) {
+				pd.Price = fmt.Sprintf("%d.%0*d", r.Range(0, 300), r.Range(1, 4), r.Range(1, 9))
+			}
+			j.Dirs = append(j.Dirs, pd)
+			tc.Tags = append(tc.Tags, "re-priced")
+		}
+	}
 	if malformed {
 		switch r.Intn(8) {
 		case 0:
@@ -482,13 +503,60 @@ func c16Check(c *Ctx, bt *Batch, tc *c16Case, agreed *bool) {
 	if len(v.UnopenedVal) > 0 {
 		c.MonitorKnown(tc.Stream, tc.Idx, "open_before_use_and_not_after_close", in, "generated valuation account never opened: "+strings.Join(v.UnopenedVal, "; ")+out, "valuation-account-not-opened")
 	}
-	nUser := 0
-	for _, d := range tc.J.Dirs {
-		if d.Kind == 't' {
-			nUser++
+	// without loss or duplication (model-free part): every transaction of the journal appears in the output (same day,
+	// description and posting accounts, with multiplicity); what remains must be shaped like a value adjustment
+	outKeys := map[string]int{}
+	txKey := func(day int, desc string, accounts []string) string {
+		return fmt.Sprintf("%d|%s|%s", day, Hex(desc), strings.Join(accounts, ","))
+	}
+	for _, e := range es {
+		if e.Kind == 't' {
+			var as []string
+			for _, p := range e.Postings {
+				as = append(as, p.Account)
+			}
+			outKeys[txKey(e.Day, e.Desc, as)]++
 		}
 	}
-	c.Monitor(tc.Stream, tc.Idx, "user_transactions_kept", in, v.UserTx == nUser, fmt.Sprintf("%d transactions in the journal, %d non-adjustment transactions in the output%s", nUser, v.UserTx, out))
+	var lost []string
+	for _, d := range tc.J.Dirs {
+		if d.Kind != 't' {
+			continue
+		}
+		var as []string
+		for _, b := range d.Bookings {
+			q, _ := decimal.NewFromString(b.Qty)
+			if q.IsNegative() {
+				as = append(as, b.Debit, b.Credit)
+			} else {
+				as = append(as, b.Credit, b.Debit)
+			}
+		}
+		k := txKey(d.Date, d.Desc, as)
+		if outKeys[k] == 0 {
+			lost = append(lost, fmt.Sprintf("%s %q", fmtDate(d.Date), d.Desc))
+		} else {
+			outKeys[k]--
+		}
+	}
+	var extra []string
+	for _, e := range es {
+		if e.Kind != 't' {
+			continue
+		}
+		var as []string
+		isAdj := false
+		for _, p := range e.Postings {
+			as = append(as, p.Account)
+			isAdj = isAdj || c16AdjustmentLeg(e, p.Account)
+		}
+		if k := txKey(e.Day, e.Desc, as); outKeys[k] > 0 && !isAdj {
+			outKeys[k]--
+			extra = append(extra, fmt.Sprintf("%s %q", fmtDate(e.Day), e.Desc))
+		}
+	}
+	c.Monitor(tc.Stream, tc.Idx, "user_transactions_kept", in, len(lost) == 0 && len(extra) == 0,
+		fmt.Sprintf("journal transactions missing from the output: %v; output transactions that are neither in the journal nor value adjustments: %v%s", lost, extra, out))
 	// the Lean predicates (BeancountSpec.ledgerOK) on the real output, incl. "transactions = valued transactions of the journal"
 	bt.Add(func(mon string) {
 		switch {
@@ -510,35 +578,65 @@ func c16Check(c *Ctx, bt *Batch, tc *c16Case, agreed *bool) {
 	}, "c16mon", Hex(tc.V), wire, c16Wire(es))
 }
 
+// c16Witness runs the journal of Properties/C16.lean `witness` (the known finding) against the real binary: the entries
+// read from the real output must be the ones the Lean witness states.
+func c16Witness(c *Ctx, dir string) {
+	if !c.Want("witness", 0) {
+		return
+	}
+	j := &Journal{Dirs: []JDir{
+		{Kind: 'p', Date: 737425, Com: "USD", Price: "0.95", Target: "CHF"},
+		{Kind: 'o', Date: 737425, Account: "Assets:Bank"},
+		{Kind: 'o', Date: 737425, Account: "Equity:E"},
+		{Kind: 't', Date: 737425, Desc: "start", Bookings: []JBook{{"Equity:E", "Assets:Bank", "100", "USD"}}},
+		{Kind: 'p', Date: 737426, Com: "USD", Price: "0.97", Target: "CHF"},
+	}}
+	tc := &c16Case{Stream: "witness", Idx: 0, J: j, V: "CHF"}
+	tc.Text, _ = j.Text()
+	tc.run(c, dir)
+	ok := true
+	bt := c.NewBatch()
+	c16Check(c, bt, tc, &ok)
+	bt.Flush()
+	_, es, _ := c16Read(tc.Stdout)
+	want := "o~737425~" + Hex("Assets:Bank") + "|o~737425~" + Hex("Equity:E") +
+		"|t~737425~" + Hex("start") + "~" + Hex("Equity:E") + ",-95;" + Hex("Assets:Bank") + ",95" +
+		"|t~737426~" + Hex("Adjust value of USD in account Assets:Bank") + "~" + Hex("Income:Bank") + ",-2;" + Hex("Assets:Bank") + ",2"
+	c.Compare("witness", 0, "witness-entries", tc.Input(), c16Wire(es), want)
+}
+
 func runC16(c *Ctx) {
 	dir := filepath.Join(c.WorkDir, "c16")
 	os.MkdirAll(dir, 0o755)
 	runStream := func(stream string, lo, hi int, malformed bool) (disagree []int) {
-		var cases []*c16Case
-		for i := lo; i < hi; i++ {
-			if c.Want(stream, i) {
-				cases = append(cases, c16GenCase(c, stream, i, malformed))
+		for a := lo; a < hi; a += 5000 { // bounded memory: 5000 cases at a time
+			var cases []*c16Case
+			for i := a; i < min(a+5000, hi); i++ {
+				if c.Want(stream, i) {
+					cases = append(cases, c16GenCase(c, stream, i, malformed))
+				}
 			}
-		}
-		parallelFor(len(cases), 16, func(k int) { cases[k].run(c, dir) })
-		bt := c.NewBatch()
-		flags := make([]bool, len(cases))
-		for k, tc := range cases {
-			flags[k] = true
-			c16Check(c, bt, tc, &flags[k])
-			if tc.Idx < 2 && stream == "transcode" {
-				c.Sample(map[string]any{"args": tc.Input()["args"], "journal": tc.Text, "stdout": tc.Stdout})
+			parallelFor(len(cases), 16, func(k int) { cases[k].run(c, dir) })
+			bt := c.NewBatch()
+			flags := make([]bool, len(cases))
+			for k, tc := range cases {
+				flags[k] = true
+				c16Check(c, bt, tc, &flags[k])
+				if tc.Idx < 2 && stream == "transcode" {
+					c.Sample(map[string]any{"args": tc.Input()["args"], "journal": tc.Text, "stdout": tc.Stdout})
+				}
 			}
-		}
-		bt.Flush()
-		for k, ok := range flags {
-			if !ok {
-				disagree = append(disagree, cases[k].Idx)
+			bt.Flush()
+			for k, ok := range flags {
+				if !ok {
+					disagree = append(disagree, cases[k].Idx)
+				}
 			}
 		}
 		return
 	}
-	n := c.N(1400, 36000)
+	c16Witness(c, dir)
+	n := c.N(10000, 300000)
 	d1 := runStream("transcode", 0, n, false)
 	d2 := runStream("malformed", 0, n/4, true)
 	runDecStream(c, c.N(2000, 20000))
